@@ -179,6 +179,10 @@ pub struct Request<'a, R, W> {
     output: Arc<Mutex<W>>,
     lock: Option<RepeatableLockFuture<W>>,
     writeable: bool,
+    /// Set once the parser reported an AbortRequest record for this request.
+    /// Distinguishes a client-initiated abort from an unrelated I/O error
+    /// that happens to have the same [`io::ErrorKind`].
+    aborted: bool,
 }
 
 impl<'a, R, W> Request<'a, R, W> {
@@ -187,7 +191,7 @@ impl<'a, R, W> Request<'a, R, W> {
     #[must_use]
     pub fn new(inner: stream::Parser<'a>, input: R, output: W) -> Self {
         let output = Arc::new(Mutex::new(output));
-        let mut req = Self { parser: inner, input, output, lock: None, writeable: false };
+        let mut req = Self { parser: inner, input, output, lock: None, writeable: false, aborted: false };
         if req.role().input_streams().len() <= 1 {
             // Roles with 0 or 1 input stream(s) are writeable after reading the Params stream
             req.set_writeable();
@@ -433,7 +437,7 @@ impl<'a, R: AsyncRead + Unpin, W: AsyncWrite + Unpin> Request<'a, R, W> {
         // Prepare request for shutdown
         match self.writeable().await {
             Ok(()) => {},
-            Err(e) if e.kind() == io::ErrorKind::ConnectionAborted => { /* Ignore */ },
+            Err(e) if self.aborted && e.kind() == io::ErrorKind::ConnectionAborted => { /* Ignore */ },
             Err(e) => return Err(e),
         }
         self.parser.set_stream(None).expect("ignoring stream data should always be allowed");
@@ -524,7 +528,13 @@ impl<'a, R: AsyncRead + Unpin, W: AsyncWrite + Unpin> Request<'a, R, W> {
         // Perform an initial `Parser::parse` without new input to consume buffered protocol data
         let mut read = 0;
         loop {
-            let status = this.parser.parse(read, dest.as_deref_mut())?;
+            let status = match this.parser.parse(read, dest.as_deref_mut()) {
+                Ok(s) => s,
+                Err(e) => {
+                    this.aborted |= matches!(e, parser::Error::AbortRequest);
+                    return Poll::Ready(Err(e.into()));
+                },
+            };
             if status.stream_end || status.stream > 0 {
                 if !this.writeable && this.is_final_stream() {
                     this.set_writeable();
@@ -662,7 +672,7 @@ impl Token {
                 let mut req = Request::new(sparser, input, output);
                 let status = match handler(&mut req).await {
                     Ok(s) => s,
-                    Err(e) if e.kind() == io::ErrorKind::ConnectionAborted => {
+                    Err(e) if req.aborted && e.kind() == io::ErrorKind::ConnectionAborted => {
                         tracing::debug!("request aborted by remote");
                         ExitStatus::ABORT
                     },
